@@ -165,6 +165,15 @@ def run_tuples(ctx):
                 checks = []
                 checks.append(("construct", den_of_struct(poly_to_struct(a)), da))
                 checks.append(("values-roundtrip", den_of_struct(poly_to_struct(numpoly.aspolynomial(a.values, names=a.names))), da))
+                # the exponent matrix handed over in column-major memory order, and the cleaning of unused names (which hands
+                # such a matrix on): rows are rows whatever the memory layout (seeded change C20-15: keys read in memory order)
+                ef = numpy.asfortranarray(numpy.array(a.exponents, dtype="int64"))
+                checks.append(("construct-fortran", den_of_struct(poly_to_struct(numpoly.polynomial_from_attributes(
+                    ef, a.coefficients, a.names, retain_coefficients=True, retain_names=True))), da))
+                checks.append(("construct-transposed", den_of_struct(poly_to_struct(numpoly.polynomial_from_attributes(
+                    numpy.ascontiguousarray(ef.T).T, a.coefficients, a.names))), da))
+                checks.append(("construct-drop-names", den_of_struct(poly_to_struct(numpoly.polynomial_from_attributes(
+                    numpy.hstack([ef, numpy.zeros((len(ef), 1), dtype="int64")]), a.coefficients, tuple(a.names) + ("q9",), retain_names=False))), da))
                 al = numpoly.align_polynomials(a, b)
                 checks.append(("align", den_of_struct(poly_to_struct(al[0])), da))
                 checks.append(("align", den_of_struct(poly_to_struct(al[1])), db))
@@ -174,6 +183,10 @@ def run_tuples(ctx):
                     checks.append(("pow", den_of_struct(poly_to_struct(a ** 2)), oracle.dmul(da, da)))
                 v = names[0]
                 checks.append(("derivative", den_of_struct(poly_to_struct(numpoly.derivative(a, f"q{v}"))), oracle.dderiv(da, v)))
+                # the same indeterminate twice in one call: the factor n*(n-1) does not fit the exponents' own 32 bits from
+                # n = 65537 on (seeded change C20-16: the falling factorial accumulated in the uint32 exponent array)
+                checks.append(("derivative-twice", den_of_struct(poly_to_struct(numpoly.derivative(a, f"q{v}", f"q{v}"))),
+                               oracle.dderiv(oracle.dderiv(da, v), v)))
                 checks.append(("pickle", den_of_struct(poly_to_struct(pickle.loads(pickle.dumps(a)))), da))
                 for sign in (1, -1):
                     point = {nm: Fraction(sign) for nm in names}
